@@ -64,6 +64,14 @@ Proof.
     destruct (IH y Hs) as [_ Hall]. specialize (Hall z Hz). lia.
 Qed.
 
+Lemma strictb_sortedb : forall l, strictb l = true -> sortedb l = true.
+Proof.
+  induction l as [|x l IH]; intros H; [reflexivity|].
+  destruct l as [|y l]; [reflexivity|].
+  cbn [strictb] in H. apply andb_true_iff in H. destruct H as [H1 H2].
+  cbn [sortedb]. apply andb_true_iff. split; [apply Z.leb_le; apply Z.ltb_lt in H1; lia | apply IH; exact H2].
+Qed.
+
 Lemma sorted_nth_mono : forall l i j, sortedb l = true ->
   (i <= j < length l)%nat -> nth i l 0 <= nth j l 0.
 Proof.
@@ -344,6 +352,10 @@ Proof.
       apply orb_false_iff in Ec. destruct Ec as [E1 E2].
       apply negb_false_iff, Z.eqb_eq in E1. apply negb_false_iff, Z.eqb_eq in E2.
       apply negb_false_iff, Z.eqb_eq in E3. apply negb_false_iff in E4. tauto.
+    + apply orb_false_iff in Ec. destruct Ec as [Ec E4]. apply orb_false_iff in Ec. destruct Ec as [Ec E3].
+      apply orb_false_iff in Ec. destruct Ec as [E1 E2].
+      apply negb_false_iff, Z.eqb_eq in E1. apply negb_false_iff, Z.eqb_eq in E2.
+      apply negb_false_iff, Z.eqb_eq in E3. apply negb_false_iff in E4. apply strictb_sortedb in E4. tauto.
   - (* IComputeCounts *)
     injection Hstep as E1 E2 E3; subst. cbn [needs] in Hneed. specialize (HNP Hneed).
     split; [constructor; [cbn [in_bounds]; lia | constructor]|]. intros _. unfold holds; cbn [learn]. tauto.
